@@ -355,7 +355,14 @@ func racSame(a, b interface{}) bool {
 // ---- generators (seeded; boundary-heavy pools)
 
 var racCoeffs = []string{"0", "1", "2", "3", "5", "7", "9", "10", "15", "25", "45", "50", "55", "99", "100", "101", "125", "995", "999", "1000", "1234", "9995", "9999", "12345", "99995", "99999", "100000", "123456789", "999999999", "1000000001", "922337203685477580", "922337203685477581", "92233720368547758", "9223372036854775807", "9223372036854775808", "18446744073709551615", "18446744073709551616", "300000001", "5000001", "340282366920938463463374607431768211455", "340282366920938463463374607431768211456", "10000000000000000000000000000000000000001", "99999999999999999999999999999999999999999999"}
-var racExps = []int32{0, 0, 0, -1, 1, -2, 2, -3, 3, -5, 5, -7, 7, -8, -9, 10, -10, 19, -20, 38, -40, 150, -160, 200, 301}
+var racExps = []int32{0, 0, 0, -1, 1, -2, 2, -3, 3, -5, 5, -7, 7, -8, -9, 10, -10, 19, -20, 38, -40, 150, -160, 200, 301, -129, -130}
+
+func init() {
+	// beyond the power-of-ten table (more than 128 digits): all nines, a power of ten, a value just above a rounding
+	// tie, a long fraction - seeds Y05, Z01 and Z19 need them to show on the real code
+	racCoeffs = append(racCoeffs, strings.Repeat("9", 129), "1"+strings.Repeat("0", 129), "123451"+strings.Repeat("0", 129),
+		"7"+strings.Repeat("1234567890", 13)[:129], "777"+strings.Repeat("49", 70))
+}
 var racTexts = []string{"0", "1", "-1.5", "+2.50", "1e5", "1E-5", ".5", "5.", ".-5", "-.-5", ".+5", "+.5", "1.-5", "-", "+", "", ".", "e5", "1e", "1e+5", "1e-+5", "--1", "+-1", "nan", "NaN123", "snan", "-sNaN9", "nansnan", "inf", "-Infinity", "infinit", "1E-100000", "1e100001", "1e-100001", "123456789012345678901234567890123456789012345", "0.000e-5", "1.2.3", "0x10", "1_000", " 1", "1 ", "9e99999", "12345678901234567890e-20"}
 var racModes = []Rounder{RoundDown, RoundHalfUp, RoundHalfEven, RoundCeiling, RoundFloor, RoundHalfDown, RoundUp, Round05Up, "", "bogus"}
 var racInts = []int64{0, 1, -1, 2, 3, 5, 9, 10, -10, 100, 127, 128, 1000, 100000, -100000, 100001, -100001, 2147483647, -2147483648, 9223372036854775807, -9223372036854775808, 4294967295}
